@@ -144,6 +144,51 @@ theorem C05_intercept_after_unrestricted_fails :
     rw [hrun]; decide
   · exact ⟨.cons "g" (.sc "i3") .nil, by decide⟩
 
+/-! ## Recorded finding: an Update RPC that does not hand the request's mask to the store
+
+`lightpb.MemoryDevice.UpdateBrightness` (plain path: no preset, no tween) calls
+`s.brightness.Set(request.Brightness, WithResetPaths(…), InterceptBefore(delta + cap))` — the
+request's `update_mask` is not among the options (`lightpb.ModelServer` passes it).  The store's code
+is right; the statement fails at the RPC.  Signature `C05/trait/lightpb.MemoryDevice/UpdateBrightness/update-mask-ignored`. -/
+
+/-- The RPC as coded: the request's mask is dropped. -/
+def rpcMaskDropped (S : Schema) (ty : Nat) (resW R : Option (List Path)) (_reqMask : Option (List Path))
+    (before : Option Icpt) (stored src : Fields) : SetOut :=
+  valueSetI S ty (fieldUpdater resW none false none R) before none stored src
+
+/-- The RPC as the property states it: the write runs with the request's mask. -/
+def rpcAsStated (S : Schema) (ty : Nat) (resW R : Option (List Path)) (reqMask : Option (List Path))
+    (before : Option Icpt) (stored src : Fields) : SetOut :=
+  valueSetI S ty (fieldUpdater resW none false reqMask R) before none stored src
+
+/-- **C05_trait_mask_dropped_fails.**  With an empty non-nil `update_mask` the RPC as coded is
+accepted and changes the stored message (`g`: 7 → 9) where the write with the request's mask changes
+nothing; and a mask naming an unknown path is accepted where the write with the mask is rejected. -/
+theorem C05_trait_mask_dropped_fails :
+    ∃ (src st : Fields),
+      rpcMaskDropped wSchema 0 (some [["g"]]) none (some []) none wStored src = .ok st src ∧
+      st.get "g" = some (.sc "i9") ∧ wStored.get "g" = some (.sc "i7") ∧
+      rpcAsStated wSchema 0 (some [["g"]]) none (some []) none wStored src = .ok wStored src ∧
+      rpcMaskDropped wSchema 0 (some [["g"]]) none (some [["nope"]]) none wStored src = .ok st src ∧
+      rpcAsStated wSchema 0 (some [["g"]]) none (some [["nope"]]) none wStored src = .err .invalidArgument :=
+  ⟨.cons "g" (.sc "i9") .nil,
+   .cons "f" (.msg (.cons "c" (.sc "i1") (.cons "d" (.sc "i2") .nil))) (.cons "g" (.sc "i9") .nil),
+   by decide, by decide, by decide, by decide, by decide, by decide⟩
+
+/-- **C05_trait_mask_dropped_partial.**  For a request WITHOUT `update_mask` (nil) the RPC as coded
+is the write the property describes, for all interceptors, masks of the server and messages: every
+theorem of this file and of `Props.lean` applies to it. -/
+theorem C05_trait_mask_dropped_partial (S : Schema) (ty : Nat) (resW R reqMask : Option (List Path))
+    (before : Option Icpt) (stored src : Fields) (h : reqMask = none) :
+    rpcMaskDropped S ty resW R reqMask before stored src = rpcAsStated S ty resW R reqMask before stored src := by
+  subst h; rfl
+
+/-- The hypothesis of the partial theorem is the ordinary request (no mask): there the RPC merges the
+writable part of the written message — `g` is replaced, the read-only `f` stays. -/
+example : ∃ s, rpcMaskDropped wSchema 0 (some [["g"]]) none none none wStored (.cons "g" (.sc "i9") .nil)
+    = .ok (.cons "f" (.msg (.cons "c" (.sc "i1") (.cons "d" (.sc "i2") .nil))) (.cons "g" (.sc "i9") .nil)) s :=
+  ⟨.cons "g" (.sc "i9") .nil, by decide⟩
+
 /-! ## Non-vacuity -/
 
 /-- The hypotheses of `C05_intercept_frame` are satisfiable with a before- AND an after-interceptor
